@@ -235,6 +235,48 @@ theorem adopted_target_safe {a : Arena} (h : Inv a) {p t : Nat} {o : Obj} (hacc 
     (ho : a.ctx.heap.get p = some o) (hs : some (Ptr.strong t) ∈ o.slots) : Safe a.ctx t :=
   h.safe_of_accessible (.edge p t hacc ⟨o, ho, hs⟩)
 
+/-! ### The barrier-carrying store paths, at the API level and over whole histories -/
+
+/-- **Every documented barrier-carrying store path is accepted in every phase, and adoption through
+    it is safe** (`Gc::write` / `unlock` — barrier then store — and store-then-barrier): after any
+    history, whatever the phase, the colours of holder and child, the queues and the debt, a
+    callback that holds the holder `p` (a tracing object with a slot `i`) and the child `t` may
+    store `t` into `p`; the operation is accepted, the collector invariant holds afterwards, and
+    the adopted target is `Safe` (allocated, undestructed, not condemned by a running sweep). -/
+theorem barrier_store_accepted_and_safe_run (n : Nat) (pre : List Op) (p i t : Nat) (path : StorePath)
+    (hpath : path ≠ .raw)
+    (halive : ((Arena.new n).run pre).alive = true)
+    (hcb : ((Arena.new n).run pre).cb.isSome = true)
+    (hp : ((Arena.new n).run pre).holds (.strong p) = true)
+    (ht : ((Arena.new n).run pre).holds (.strong t) = true)
+    (hslot : (Arena.slotOf ((Arena.new n).run pre).ctx p i).isSome = true)
+    (htr : Arena.isTracing ((Arena.new n).run pre).ctx p = true) :
+    (((Arena.new n).run pre).step (.store path p i (some (.strong t)))).2 = "ok" ∧
+    Inv (((Arena.new n).run pre).step (.store path p i (some (.strong t)))).1 ∧
+    Safe (((Arena.new n).run pre).step (.store path p i (some (.strong t)))).1.ctx t := by
+  generalize hA : (Arena.new n).run pre = a at *
+  have h : Inv a := by rw [← hA]; exact inv_run n pre (by rw [hA]; exact halive)
+  have hn : a.cb.isNone = false := by cases hc : a.cb <;> simp_all
+  obtain ⟨s, hs⟩ := Option.isSome_iff_exists.mp hslot
+  have key : (a.step (.store path p i (some (.strong t)))).2 = "ok" ∧
+      (a.step (.store path p i (some (.strong t)))).1.alive = true ∧
+      (a.step (.store path p i (some (.strong t)))).1.temps = a.temps := by
+    unfold Arena.step
+    simp only [h.alive, Bool.not_true, Bool.false_eq_true, if_false]
+    have e1 : ({ ctx := a.ctx, root := a.root, temps := a.temps, cb := a.cb, cover := a.cover, marked := false, alive := true } : Arena).holds (.strong p) = true := hp
+    have e2 : ({ ctx := a.ctx, root := a.root, temps := a.temps, cb := a.cb, cover := a.cover, marked := false, alive := true } : Arena).holdsSlot (some (.strong t)) = true := ht
+    simp only [Arena.stepBody, hn, e1, e2, hs, htr, Bool.not_true, Bool.or_self, Bool.false_eq_true,
+      if_false, Option.isSome_some, Bool.and_false]
+    cases path with
+    | raw => exact absurd rfl hpath
+    | write => exact ⟨rfl, rfl, rfl⟩
+    | storeThenBarrier => exact ⟨rfl, rfl, rfl⟩
+  obtain ⟨hok, hal, htemps⟩ := key
+  have h' := inv_step h _ hal
+  refine ⟨hok, h', ?_⟩
+  have hmem : Ptr.strong t ∈ (a.step (.store path p i (some (.strong t)))).1.temps := by
+    rw [htemps]; simpa [Arena.holds] using ht
+  exact h'.cinv.tempsOK _ hmem
 /-! ### Non-vacuity: black parent, white child, each barrier path -/
 
 /-- root → 0 fully marked (black); a fresh white object 1; general backward barrier on 0, then a
@@ -252,5 +294,16 @@ example : ((Arena.new 2).run demo).ctx.phase = .sleep := by decide
 example : ((Arena.new 2).run demo).ctx.log = [] := by decide
 example : ((Arena.new 2).run demo).ctx.err = none := by decide
 example : ((Arena.new 2).run (demo.take 9)).cover = [.parent 0] := by decide
+
+/-- The premises of `barrier_store_accepted_and_safe_run` hold in the demo just before its barrier:
+    phase Mark, holder 0 black, child 1 fresh and white, both held by the running callback. -/
+example : ((Arena.new 2).run (demo.take 8)).cb.isSome = true := by decide
+example : ((Arena.new 2).run (demo.take 8)).ctx.phase = .mark := by decide
+example : ((Arena.new 2).run (demo.take 8)).holds (.strong 0) = true := by decide
+example : ((Arena.new 2).run (demo.take 8)).holds (.strong 1) = true := by decide
+example : (Arena.slotOf ((Arena.new 2).run (demo.take 8)).ctx 0 0).isSome = true := by decide
+example : Arena.isTracing ((Arena.new 2).run (demo.take 8)).ctx 0 = true := by decide
+example : (((Arena.new 2).run (demo.take 8)).step (.store .write 0 0 (some (.strong 1)))).2 = "ok" := by
+  decide
 
 end GcArena.C06
